@@ -99,6 +99,12 @@ Theorem C08_request_needs_same_call : forall h c sid s n stream media,
   do_media h c sid s (RSession (IdPub n)) 1 stream media = (h, [ToConn c (SError E_not_allowed)]).
 Proof. exact request_needs_same_call. Qed.
 
+Theorem C08_request_needs_same_call_any : forall h c sid s i stream media,
+  (match i with IdPub x => N.eqb x sid | _ => false end) = false ->
+  same_call h sid s (match i with IdPub x => x | _ => 0 end) = false ->
+  do_media h c sid s (RSession i) 1 stream media = (h, [ToConn c (SError E_not_allowed)]).
+Proof. exact request_needs_same_call_any. Qed.
+
 (* The statements are not vacuous: a reachable state with an open audio + video publisher (media
    server answering at once, and gated); the room reply granting publish-audio only closes it. *)
 Example C08_example_open_publisher :
@@ -131,3 +137,4 @@ Print Assumptions C08_revocation_closes.
 Print Assumptions C08_revocation_establishes.
 Print Assumptions C08_request_needs_same_call.
 Print Assumptions C08_offer_needs_permission.
+Print Assumptions C08_request_needs_same_call_any.
